@@ -7,6 +7,7 @@ import IbicusModel.Props.C12
 #print axioms Props.C12.sites_justified
 #print axioms Props.C12.stores_listed
 #print axioms Props.C12.callArgs_classified
+#print axioms Props.C12.rng_sites_guarded
 #print axioms Props.C12.trusted_alias_classification
 -- property theorems: (B) instance model
 #print axioms Props.C12.selfAssigns_in_post_init
@@ -25,3 +26,4 @@ import IbicusModel.Props.C12
 #print axioms Lemmas.GenWriteSites.selfAssigns
 #print axioms Lemmas.GenWriteSites.globalState
 #print axioms Lemmas.GenWriteSites.callArgs
+#print axioms Lemmas.GenWriteSites.rngSites
